@@ -694,7 +694,8 @@ def correspondence(run):
             _report(run, reported, "oracle-history", key,
                     dict({"clause": "batch encoding equals per-position encoding padded under a mask marking exactly the real "
                                     "tokens - for all batches in any order: " + b["what"],
-                          "input": {"history": jh}, "storage_sharing": sharing}, **b))
+                          "call": b["call"], "changed_after_return": b.get("changed_after_return"),
+                          "storage_sharing": sharing, "input": {"history": jh}}, **b))
     failing_h, shard_fail_h, nsh_h = ch.run()
     run.oblige(f"correspondence:batch-history ({nsh_h} shards)", not shard_fail_h, str(shard_fail_h)[:1500])
     for meta in failing_h:
@@ -762,7 +763,8 @@ def search(run, broken):
             run.violation(history_key(hist),
                           dict({"clause": "batch encoding equals per-position encoding padded under a mask marking exactly "
                                           "the real tokens - for all batches in any order: " + b["what"],
-                                "input": {"history": j_history(hist)}, "storage_sharing": sharing}, **b))
+                                "call": b["call"], "changed_after_return": b.get("changed_after_return"),
+                                "storage_sharing": sharing, "input": {"history": j_history(hist)}}, **b))
             return True
     return False
 
